@@ -7,6 +7,7 @@ Inductive op :=
 | OPush (k : nat) (f : N) (u : uval)          (* slot, input form, value *)
 | OProbe (k : nat)                             (* every index issued since the last clear, all accessors *)
 | ORead (k : nat)                              (* ... owned value only *)
+| OProbeOwned (k : nat)                        (* ... probe of borrow_as(&into_owned(item)) *)
 | OClear (k : nat)
 | OMerge (d : nat) (ks : list nat)             (* slot d := merge_regions(slots ks) *)
 | OClone (d k : nat)                           (* slot d := slot k .clone() *)
@@ -57,6 +58,9 @@ Section Machine.
     | OProbe k =>
         let x := get_slot sl k in
         (map (fun i => obs_res (let* it := index I (s_st x) i in probe Wr it)) (s_log x), Some sl)
+    | OProbeOwned k =>
+        let x := get_slot sl k in
+        (map (fun i => obs_res (let* it := index I (s_st x) i in let* v := own I it in probe Wr (borrow I v))) (s_log x), Some sl)
     | ORead k =>
         let x := get_slot sl k in
         (map (fun i => obs_res (let* v := read R (s_st x) i in Ok (to_u Wr v))) (s_log x), Some sl)
@@ -105,5 +109,5 @@ Section Machine.
         end
     end.
 
-  Definition run0 (ops : list op) : list (list obs) := run [slot0; slot0; slot0] ops.
+  Definition run0 (ops : list op) : list (list obs) := run [slot0; slot0; slot0; slot0] ops.
 End Machine.
